@@ -219,10 +219,12 @@ class Tokenizer:
                         ):
                             # may contain unicode escape, replace with normal
                             # char but do not _normalize (?)
-                            value = self.unicodesub(_repl, found)
+                            value = found
                             if name in ('STRING', 'INVALID'):  # 'URI'?
                                 # remove \ followed by nl (so escaped) from string
+                                # (before a new line could stem from an escape)
                                 value = self.cleanstring('', value)
+                            value = self.unicodesub(_repl, value)
 
                         else:
                             if 'ATKEYWORD' == name:
